@@ -222,6 +222,17 @@ func oneofWrapper(owner reflect.Value, goField string) reflect.Type {
 
 func sameVia(a, b []spec.Via) bool { return viaKey(a) == viaKey(b) }
 
+// declOf: the excluded field belongs to the oneof's declaring message iff that message has a field of its name in the group.
+func declOf(o spec.OneofRef, x spec.Excl) string {
+	for i := range o.Decl.Fields {
+		f := &o.Decl.Fields[i]
+		if f == x.F || (f.Name == x.F.Name && f.Oneof == o.Name) {
+			return o.Decl.Name
+		}
+	}
+	return ""
+}
+
 // genInto fills struct rv (addressable) with a value drawn for node n. Prior contents are
 // overwritten field by field (fields of nil nullable embedded parents are left alone).
 func genInto(t *rapid.T, n *spec.Node, rv reflect.Value, depth int, label string) {
@@ -257,6 +268,12 @@ func genInto(t *rapid.T, n *spec.Node, rv reflect.Value, depth int, label string
 		for _, e := range n.Entries {
 			if e.F != nil && e.F.Oneof == o.Name && e.Decl == o.Decl && sameVia(e.Via, o.Via) {
 				branches = append(branches, e)
+			}
+		}
+		// a branch that is excluded from the schema can still be what the struct holds
+		for _, x := range n.Excluded {
+			if x.F.Oneof == o.Name && sameVia(x.Via, o.Via) && x.F.Kind != spec.KMessage && o.Decl.Name == declOf(o, x) {
+				branches = append(branches, &spec.Entry{Go: x.Go, F: x.F, Via: x.Via, Decl: o.Decl})
 			}
 		}
 		owner := holderOf(rv, o.Via, true)
@@ -320,6 +337,7 @@ func genStruct(t *rapid.T, re *rootEnv, label string) interface{} {
 type tfMode struct {
 	unknownOK    bool // unknown values may appear
 	nullElems    bool // null / unknown list and map elements may appear
+	unkElems     bool // unknown (but not null) list and map elements may appear
 	oneofAtMost1 bool // at most one branch of a oneof group is not null
 	othersUnk    bool // with oneofAtMost1: the other branches may be unknown instead of null (C07's precondition)
 	pNull, pUnk  int  // percentages for attribute state
@@ -328,7 +346,7 @@ type tfMode struct {
 }
 
 var (
-	modePlan  = tfMode{unknownOK: true, nullElems: false, oneofAtMost1: true, pNull: 25, pUnk: 25, noPlaceholderValue: true}
+	modePlan  = tfMode{unknownOK: true, nullElems: false, unkElems: true, oneofAtMost1: true, pNull: 25, pUnk: 25, noPlaceholderValue: true}
 	modeAny   = tfMode{unknownOK: true, nullElems: true, oneofAtMost1: false, pNull: 25, pUnk: 20}
 	modeOneof = tfMode{unknownOK: true, nullElems: false, oneofAtMost1: true, othersUnk: true, pNull: 25, pUnk: 25}
 	modeState = tfMode{unknownOK: false, nullElems: false, oneofAtMost1: true, pNull: 30, pUnk: 0}
@@ -409,10 +427,13 @@ func genTFAttr(t *rapid.T, e *spec.Entry, typ tftypes.Type, m tfMode, st int, de
 		return stateValue(typ, st)
 	}
 	elemState := func(l string) int {
-		if !m.nullElems {
-			return stKnown
+		if m.nullElems {
+			return drawState(t, tfMode{unknownOK: m.unknownOK, pNull: 15, pUnk: 10}, l)
 		}
-		return drawState(t, tfMode{unknownOK: m.unknownOK, pNull: 15, pUnk: 10}, l)
+		if m.unkElems && coin(t, 1, 8, l+"/unk") {
+			return stUnknown // C08 excludes null elements only
+		}
+		return stKnown
 	}
 	hi := 3
 	if depth >= 2 {
